@@ -288,7 +288,9 @@ def R3_validate_constants(run):
         _check_validated_store(run, w, "adaptive_fee_constants", None)
     # nobody writes the individual constants of a stored Oracle
     for field in consts_fields:
-        ws = writes.writers_of(facts, "state::oracle::AdaptiveFeeConstants", field)
+        # (stores into a local AdaptiveFeeConstants value that is being put together do not count: what reaches an Oracle is a whole
+        # struct, and that store is a validated-store instance above)
+        ws = [w for w in writes.writers_of(facts, "state::oracle::AdaptiveFeeConstants", field) if w.get("root") != "local"]
         run.check("R3", "oracle-const-field." + field, not ws, "field %s of stored AdaptiveFeeConstants is written directly in %s" % (
             field, ", ".join(w["fn"].path for w in ws)), detail="no direct writer")
     run.floor("R3", "validated stores", n, 8)
